@@ -13,6 +13,15 @@ SVC_OV = [{"file": "services/basic_service.go", "rewrite": ['"sync"', '"go.uber.
 
 TOK_OV = [{"file": "ring/tokens.go", "rewrite": ['"os"']}]
 
+RS_OV = [{"file": "ring/replication_set.go", "rewrite": ['"sync"']},
+         {"file": "ring/replication_set_tracker.go", "rewrite": ['"sync"', '"go.uber.org/atomic"', '"math/rand"']}]
+
+# multi-set part: the in-flight tracker's mutex stays native. Its lock is taken by the per-instance goroutines BEFORE they reach
+# the harness callback that names them, and those goroutines are spawned by two workers running in parallel, so their
+# creation order (the only identity an unnamed goroutine has) is not reproducible.
+RS_OV_MULTI = [{"file": "ring/replication_set.go", "rewrite": ['"sync"']},
+               {"file": "ring/replication_set_tracker.go", "rewrite": ['"go.uber.org/atomic"', '"math/rand"']}]
+
 CHECKS = {
     "C01": {"parts": [P("lookup", "./c01", "^TestC01$")]},
     "C02": {"parts": [P("quorum-intersection", "./c02", "^TestC02$")]},
@@ -34,9 +43,8 @@ CHECKS = {
     "C17": {"parts": [P("single-service", "./c17", "^TestC17Single$", shards={"quick": 8, "thorough": 8}, budget={"quick": 200, "thorough": 1200}, gomaxprocs=1, overlay=SVC_OV),
                       P("manager", "./c17", "^TestC17Manager$", shards={"quick": 6, "thorough": 6}, budget={"quick": 200, "thorough": 1200}, gomaxprocs=1, overlay=SVC_OV),
                       P("idle-timer", "./c17", "^TestC17Timer$", shards={"quick": 2, "thorough": 2}, budget={"quick": 200, "thorough": 900}, gomaxprocs=1, overlay=SVC_OV)]},
-    "C11": {"parts": [P("dountilquorum", "./c11", "^TestC11$", shards={"quick": 16, "thorough": 16}, budget={"quick": 200, "thorough": 1200}, gomaxprocs=1,
-                      overlay=[{"file": "ring/replication_set.go", "rewrite": ['"sync"']},
-                               {"file": "ring/replication_set_tracker.go", "rewrite": ['"sync"', '"go.uber.org/atomic"', '"math/rand"']}])]},
+    "C11": {"parts": [P("dountilquorum", "./c11", "^TestC11$", shards={"quick": 12, "thorough": 12}, budget={"quick": 200, "thorough": 1200}, gomaxprocs=1, overlay=RS_OV),
+                      P("multi-set", "./c11", "^TestC11Multi$", shards={"quick": 4, "thorough": 4}, budget={"quick": 200, "thorough": 1200}, gomaxprocs=1, overlay=RS_OV_MULTI)]},
     "C12": {"parts": [P("instance-shards", "./c12", "^TestC12Instances$"), P("instance-lookback", "./c12", "^TestC12Lookback$"), P("partition-shards", "./c12", "^TestC12Partitions$")]},
     "C13": {"parts": [P("ring-client", "./c13", "^TestC13Ring$"), P("partition-watcher", "./c13", "^TestC13Partitions$")]},
     "C14": {"parts": [P("instance-ranges", "./c14", "^TestC14Instances$"), P("partition-ranges", "./c14", "^TestC14Partitions$")]},
